@@ -376,8 +376,10 @@ def _xfilter(accumulator, test_range, condition, operating_range):
         condition = _text2num(condition)
 
     from .operators import _get_type_id
+    ordered = operator in ('<', '>', '<=', '>=')
     type_id, operator = _get_type_id(condition), LOGIC_OPERATORS[operator]
 
+    is_error = isinstance(condition, XlError)
     if isinstance(condition, str):
         condition = condition.upper()  # Text is compared ignoring the case.
 
@@ -385,6 +387,8 @@ def _xfilter(accumulator, test_range, condition, operating_range):
     def check(value):
         if _get_type_id(value) != type_id:
             return False
+        if ordered and isinstance(value, XlError) != is_error:
+            return False  # An error value has no order with other values.
         if isinstance(value, str):
             value = value.upper()
         return operator(value, condition)
